@@ -296,7 +296,15 @@ Section G.
   Definition vas_num (j : val) : option Z :=
     match j with VAtom a => as_num a | _ => None end.
 
-  (** merge.uncompressIndices ([start, count] pairs). *)
+  (** merge.uncompressIndices.  A run [start, count] is expanded by Go's loop
+      [for i := start; i < start+count; i++] (nothing when count <= 0); every resulting int is then used by
+      mergeArray as [if index != -1 { new[i] = prev[index] }]: -1 leaves nil, any other negative index
+      panics there ([None] here, like an index beyond the end in [vreorder]). *)
+  Definition run_indices (s c : Z) : list Z := map (fun i => (s + Z.of_nat i)%Z) (seq 0 (Z.to_nat c)).
+
+  Definition idx_of_z (z : Z) : option (option nat) :=
+    if Z.eqb z (-1) then Some None else option_map Some (z_index z).
+
   Fixpoint vuncompress (c : list val) : option (list (option nat)) :=
     match c with
     | [] => Some []
@@ -307,20 +315,15 @@ Section G.
             match x with
             | VAtom a =>
                 match as_num a with
-                | Some z =>
-                    if Z.eqb z (-1) then Some (None :: rest)
-                    else match z_index z with
-                         | Some n => Some (Some n :: rest)
-                         | None => None
-                         end
+                | Some z => match idx_of_z z with Some i => Some (i :: rest) | None => None end
                 | None => None
                 end
             | VArr [s; c] =>
                 match vas_num s, vas_num c with
                 | Some s', Some c' =>
-                    match z_index s', z_index c' with
-                    | Some s'', Some c'' => Some (map Some (seq s'' c'') ++ rest)
-                    | _, _ => None
+                    match sequence (map idx_of_z (run_indices s' c')) with
+                    | Some r => Some (r ++ rest)
+                    | None => None
                     end
                 | _, _ => None
                 end
@@ -455,6 +458,9 @@ Section G.
   Definition vjs_index (p : list val) (z : Z) : val :=
     match z_index z with Some n => nth n p VNull | None => VNull end.
 
+  (** The "$" loop of merge.ts: an array entry x runs [for (i = x[0]; i < x[0] + x[1]; i++)] (nothing when
+      x has fewer than two elements: the bound is NaN), -1 pushes undefined, anything else pushes
+      original[x] (undefined unless x is an index of the array). *)
   Fixpoint vjs_reorder (p : list val) (c : list val) : list val :=
     match c with
     | [] => []
@@ -462,13 +468,10 @@ Section G.
         (match x with
          | VArr (s :: c :: _) =>
              match vas_num s, vas_num c with
-             | Some s', Some c' =>
-                 match z_index s', z_index c' with
-                 | Some s'', Some c'' => map (fun i => nth i p VNull) (seq s'' c'')
-                 | _, _ => []
-                 end
+             | Some s', Some c' => map (vjs_index p) (run_indices s' c')
              | _, _ => []
              end
+         | VArr _ => []
          | VAtom a =>
              match as_num a with
              | Some z => if Z.eqb z (-1) then [VNull] else [vjs_index p z]
@@ -586,6 +589,7 @@ Arguments vmerge_replaced {A} {O} d.
 Arguments vis_removed {A} d.
 Arguments vas_num {A} {O} j.
 Arguments vuncompress {A} {O} c.
+Arguments run_indices s c : simpl never.
 Arguments vapps_t A : clear implicits.
 Arguments vmm_updated {A} apps p.
 Arguments vmm_added {A} {O} p apps.
